@@ -1,7 +1,345 @@
-// correspondence + search binary for property C08 (stub)
+// C08 — regret updates are the external-sampling counterfactual regret estimator.
+//
+// The harness trains a real Profile exactly as Blueprint::solve does (tree -> Partition ->
+// counterfactual -> add_regret/add_policy -> next), with the stand-in abstraction (hooks H4/H5),
+// and for sampled trees dumps
+//   tree <n> <m> <n node tokens parent,edge,kind,bucket,payoffbits> <m sigma tokens bucket,edge,bits>
+//   regret <roots csv> <edge:scalebits csv>
+// The Lean driver recomputes Profile::regret_vector with the model of profile.rs in exact
+// rational arithmetic from the dumped f32 bit patterns; both sides print regret / scale where
+// scale = Σ|terms| of the estimator (f64, computed here, verified by the driver), so the
+// check's absolute tolerance 1e-4 is a tolerance of 1e-4·Σ|terms|.
+//
+// Search oracle (independent of the Lean model): the textbook estimator
+//   v(n) = payoff at a childless node; Σ_c σ(n,c) v(c) at a traverser node; Σ_c v(c) elsewhere
+//   r(I,a) = Σ_{h∈I} ( v(h·a) − Σ_b σ(h,b) v(h·b) )
+// computed bottom-up in f64 straight from the children lists, compared with the real
+// regret_vector on EVERY information set of EVERY sampled tree.
+use robopoker::gameplay::ply::Turn;
+use robopoker::mccfr::blueprint::Blueprint;
+use robopoker::mccfr::bucket::Bucket;
+use robopoker::mccfr::counterfactual::Counterfactual;
+use robopoker::mccfr::encoder::Encoder;
+use robopoker::mccfr::info::Info;
+use robopoker::mccfr::partition::Partition;
+use robopoker::mccfr::player::Player;
+use robopoker::mccfr::profile::Profile;
+use robopoker::mccfr::tree::Tree;
+use rpharness::*;
+use std::collections::{BTreeMap, HashMap};
+
+const TOL: f64 = 1e-4;
+const SCALE_FLOOR: f64 = 9.094947017729282e-13; // 2^-40
+
+struct Dump {
+    parent: Vec<Option<usize>>,
+    edge: Vec<u8>,
+    kind: Vec<char>,
+    bucket: Vec<usize>,
+    payoff: Vec<f32>,
+    kids: Vec<Vec<usize>>,
+    sigma: BTreeMap<(usize, u8), f32>,
+    depth: Vec<usize>,
+}
+
+fn dump(tree: &Tree, profile: &Profile) -> Dump {
+    let walker = tree.walker();
+    let nodes = tree.all();
+    let n = nodes.len();
+    let mut ids: HashMap<Bucket, usize> = HashMap::new();
+    let mut d = Dump {
+        parent: vec![None; n],
+        edge: vec![0; n],
+        kind: vec!['t'; n],
+        bucket: vec![0; n],
+        payoff: vec![0.0; n],
+        kids: vec![vec![]; n],
+        sigma: BTreeMap::new(),
+        depth: vec![0; n],
+    };
+    for (i, node) in nodes.iter().enumerate() {
+        assert!(node.index().index() == i);
+        d.parent[i] = node.parent().map(|p| p.index().index());
+        d.edge[i] = node.incoming().map(|e| u8::from(*e)).unwrap_or(0);
+        d.kids[i] = node.children().iter().map(|c| c.index().index()).collect();
+        d.kind[i] = match node.player() {
+            p if p == walker => 'w',
+            Player(Turn::Chance) => 'c',
+            Player(Turn::Terminal) => 't',
+            _ => 'o',
+        };
+        let next = ids.len();
+        d.bucket[i] = *ids.entry(node.bucket().clone()).or_insert(next);
+        d.depth[i] = d.parent[i].map(|p| d.depth[p] + 1).unwrap_or(0);
+        if d.kids[i].is_empty() {
+            d.payoff[i] = node.payoff(&walker);
+        } else if d.kind[i] == 'w' || d.kind[i] == 'o' {
+            for e in node.outgoing() {
+                d.sigma.insert((d.bucket[i], u8::from(*e)), profile.weight(node.bucket(), e));
+            }
+        }
+    }
+    d
+}
+
+impl Dump {
+    fn line(&self) -> String {
+        let mut s = format!("tree {} {}", self.parent.len(), self.sigma.len());
+        for i in 0..self.parent.len() {
+            let p = self.parent[i].map(|p| p.to_string()).unwrap_or("-".into());
+            s.push_str(&format!(" {},{},{},{},{}", p, self.edge[i], self.kind[i], self.bucket[i], self.payoff[i].to_bits()));
+        }
+        for ((b, e), w) in &self.sigma {
+            s.push_str(&format!(" {},{},{}", b, e, w.to_bits()));
+        }
+        s
+    }
+    fn sig(&self, n: usize, c: usize) -> f64 {
+        *self.sigma.get(&(self.bucket[n], self.edge[c])).expect("sigma dumped") as f64
+    }
+    /// textbook sampled counterfactual values, and the same with |payoff| (Σ|terms|)
+    fn values(&self) -> (Vec<f64>, Vec<f64>) {
+        let n = self.parent.len();
+        let mut v = vec![0f64; n];
+        let mut a = vec![0f64; n];
+        for i in (0..n).rev() {
+            if self.kids[i].is_empty() {
+                v[i] = self.payoff[i] as f64;
+                a[i] = (self.payoff[i] as f64).abs();
+            } else {
+                for &c in &self.kids[i] {
+                    assert!(c > i);
+                    let w = if self.kind[i] == 'w' { self.sig(i, c) } else { 1.0 };
+                    v[i] += w * v[c];
+                    a[i] += w * a[c];
+                }
+            }
+        }
+        (v, a)
+    }
+}
+
+fn clamp(x: f64) -> f64 {
+    x.max(robopoker::verif::REGRET_MIN as f64).min(robopoker::verif::REGRET_MAX as f64)
+}
+
+/// search oracle + (optionally) correspondence line for one set of traverser nodes
+fn check_set(run: &mut Run, d: &Dump, v: &[f64], va: &[f64], roots: &[usize], real: Option<BTreeMap<u8, f32>>, label: &str, emit: bool, synthetic: bool) {
+    run.evaluations += 1;
+    let h0 = roots[0];
+    let mut edges: Vec<u8> = d.kids[h0].iter().map(|&c| d.edge[c]).collect();
+    edges.sort();
+    let suffix = if synthetic { "-on-synthetic-set" } else { "" };
+    let real = match real {
+        Some(r) => r,
+        None => {
+            run.fail(&format!("regret-vector-panics{suffix}"), &format!("{label} roots {roots:?}"), "a regret vector", "panic");
+            if emit {
+                run.line(&format!("regret {} {}", roots.iter().map(|r| r.to_string()).collect::<Vec<_>>().join(","), edges.iter().map(|e| format!("{}:{}", e, 1f64.to_bits())).collect::<Vec<_>>().join(",")), "panic");
+            }
+            return;
+        }
+    };
+    let mut scales: Vec<f64> = vec![];
+    let mut flat = true;
+    let mut centered = 0f64;
+    let mut centered_scale = 0f64;
+    let mut clamped = false;
+    for &e in &edges {
+        let mut r = 0f64;
+        let mut t = 0f64;
+        for &h in roots {
+            let c = d.kids[h].iter().copied().find(|&c| d.edge[c] == e);
+            let ev: f64 = d.kids[h].iter().map(|&b| d.sig(h, b) * v[b]).sum();
+            let ea: f64 = d.kids[h].iter().map(|&b| d.sig(h, b) * va[b]).sum();
+            match c {
+                Some(c) => {
+                    r += v[c] - ev;
+                    t += va[c] + ea;
+                    if (v[c] - ev).abs() > 1e-9 * (va[c] + ea) {
+                        flat = false;
+                    }
+                }
+                None => {
+                    run.fail(&format!("infoset-node-lacks-edge{suffix}"), &format!("{label} roots {roots:?} edge {e}"), "every node of the set has every action", "missing child");
+                }
+            }
+        }
+        let want = clamp(r);
+        if want != r {
+            clamped = true;
+        }
+        let t = t.max(SCALE_FLOOR);
+        scales.push(t);
+        run.spec_checked += 1;
+        match real.get(&e) {
+            None => run.fail(&format!("regret-vector-lacks-action{suffix}"), &format!("{label} roots {roots:?} edge {e}"), "an entry", "none"),
+            Some(&got) => {
+                if !((got as f64 - want).abs() <= TOL * t) {
+                    run.fail(
+                        &format!("regret-not-textbook{suffix}"),
+                        &format!("{label} (after ops line {}) roots {roots:?} edge {e} sum|terms| {t:e}", run.lines),
+                        &format!("{want:e}"),
+                        &format!("{got:e}"),
+                    );
+                }
+                let s = d.sig(h0, d.kids[h0].iter().copied().find(|&c| d.edge[c] == e).unwrap());
+                centered += s * got as f64;
+                centered_scale += s * t;
+            }
+        }
+    }
+    if real.len() != edges.len() {
+        run.fail(&format!("regret-vector-wrong-actions{suffix}"), &format!("{label} roots {roots:?}"), &format!("{edges:?}"), &format!("{:?}", real.keys().collect::<Vec<_>>()));
+    }
+    // in-particular clauses, numerically on the real output
+    run.spec_checked += 1;
+    if flat {
+        run.count("infoset-all-actions-worth-the-same");
+        let t = scales.iter().cloned().fold(0f64, f64::max);
+        for (&e, &got) in &real {
+            if !((got as f64).abs() <= TOL * t) {
+                run.fail(&format!("regret-nonzero-when-actions-equal{suffix}"), &format!("{label} roots {roots:?} edge {e}"), "0", &format!("{got:e}"));
+            }
+        }
+    }
+    // σ-weighted sum of the regrets of a single-node set vanishes (normalised σ): the pre-fix
+    // formula, which is not invariant under adding a constant to the payoffs, violates it
+    if roots.len() == 1 && !clamped && !(centered.abs() <= TOL * centered_scale) {
+        run.fail(&format!("regret-not-centered{suffix}"), &format!("{label} roots {roots:?}"), "sum_a sigma(a) r(a) = 0", &format!("{centered:e}"));
+    }
+    if scales.iter().any(|&t| t > SCALE_FLOOR) && edges.len() >= 2 {
+        run.distinct(&(label, roots));
+    }
+    let size = match roots.len() { 1 => "1", 2 => "2", 3..=4 => "3-4", _ => "5+" };
+    run.count(&format!("{}infoset-nodes={}", if synthetic { "synthetic-" } else { "" }, size));
+    run.count(&format!("infoset-actions={}", edges.len()));
+    if emit {
+        let op = format!(
+            "regret {} {}",
+            roots.iter().map(|r| r.to_string()).collect::<Vec<_>>().join(","),
+            edges.iter().zip(&scales).map(|(e, t)| format!("{}:{}", e, t.to_bits())).collect::<Vec<_>>().join(",")
+        );
+        let mut ans = String::from("scale-ok textbook-eq");
+        for (e, t) in edges.iter().zip(&scales) {
+            let got = real.get(e).copied().unwrap_or(f32::NAN) as f64;
+            ans.push_str(&format!(" {} ~{:e}", e, got / t));
+        }
+        run.line(&op, &ans);
+        run.count(&format!("dumped-{}infoset-nodes={}", if synthetic { "synthetic-" } else { "" }, size));
+    }
+}
+
 fn main() {
-    let a = rpharness::args();
-    let mut run = rpharness::Run::new(&a.out);
-    run.rule = "stub".into();
+    let a = args();
+    let mut rng = Rng::new(a.seed);
+    let mut run = Run::new(&a.out);
+    quiet_panics();
+    let (epochs, batch, per_tree, synthetic_per_tree) = if a.thorough() { (60usize, 8usize, 40usize, 12usize) } else { (14, 3, 8, 4) };
+    run.rule = format!(
+        "{epochs} training epochs x {batch} trees sampled by the real Blueprint::tree from an initially empty Profile with the stand-in abstraction, traverser alternating; profile updated as Blueprint::solve does. Search oracle: textbook estimator in f64 on every information set of every tree (tolerance {TOL}·Σ|terms|). Correspondence: every tree dumped, with its multi-node information sets, its largest information set and a random sample (up to {per_tree} per tree). An information set is non-trivial when Σ|terms| > 0 and it has >= 2 actions; distinct by (epoch, tree, bucket id). Deals come from the code's own thread_rng (every third tree uses the forced draw index from VERIF_SEED); each dumped tree is self-contained in ops.txt"
+    );
+    let bp = Blueprint::verif_new(Profile::default(), Encoder::default());
+    let profile = bp.verif_profile();
+    let mut tree_no = 0u64;
+    for epoch in 0..epochs {
+        let mut cfs: Vec<Counterfactual> = vec![];
+        for _ in 0..batch {
+            tree_no += 1;
+            if tree_no % 3 == 0 {
+                robopoker::verif::set_draw_index(Some(rng.below(52) as u8));
+            }
+            let tree = bp.verif_tree();
+            robopoker::verif::set_draw_index(None);
+            let d = { dump(&tree, &profile.read().unwrap()) };
+            let (v, va) = d.values();
+            let n = d.parent.len();
+            let nleaves = d.kids.iter().filter(|k| k.is_empty()).count();
+            let maxdepth = d.depth.iter().copied().max().unwrap_or(0);
+            run.count(&format!("tree-nodes<={}", match n { 0..=99 => 99, 100..=999 => 999, 1000..=2999 => 2999, _ => 99999 }));
+            run.count(&format!("tree-depth<={}", match maxdepth { 0..=8 => 8, 9..=16 => 16, 17..=24 => 24, _ => 99 }));
+            run.count(&format!("walker=P{}", epoch % 2));
+            run.line(&d.line(), &format!("tree {} {} wf external-shape", n, nleaves));
+            let infos: Vec<Info> = Partition::from(tree).into();
+            // which information sets go to the model driver
+            let mut chosen: Vec<usize> = vec![];
+            let sizes: Vec<usize> = infos.iter().map(|i| i.roots().len()).collect();
+            let mut multi: Vec<usize> = (0..infos.len()).filter(|&i| sizes[i] > 1).collect();
+            multi.truncate(per_tree / 2);
+            chosen.extend(multi);
+            if let Some(big) = (0..infos.len()).min_by_key(|&i| infos[i].roots()[0].index().index()) {
+                if !chosen.contains(&big) {
+                    chosen.push(big);
+                }
+            }
+            while chosen.len() < per_tree.min(infos.len()) {
+                let i = rng.below(infos.len() as u64) as usize;
+                if !chosen.contains(&i) {
+                    chosen.push(i);
+                }
+            }
+            for (ix, info) in infos.into_iter().enumerate() {
+                let roots: Vec<usize> = info.roots().iter().map(|r| r.index().index()).collect();
+                let cf = { profile.read().unwrap().counterfactual(info) };
+                let real: BTreeMap<u8, f32> = cf.regret().inner().iter().map(|(e, r)| (u8::from(*e), *r)).collect();
+                check_set(&mut run, &d, &v, &va, &roots, Some(real), &format!("epoch {epoch} tree {tree_no}"), chosen.contains(&ix), false);
+                cfs.push(cf);
+            }
+        }
+        // one extra tree per epoch (not used for training): the real regret_vector on synthetic
+        // multi-node sets (walker nodes sharing an action menu), because real multi-node
+        // information sets only arise below depth 16 and are rare
+        {
+            let tree = std::sync::Arc::new(bp.verif_tree());
+            let d = { dump(&tree, &profile.read().unwrap()) };
+            let (v, va) = d.values();
+            let n = d.parent.len();
+            let nleaves = d.kids.iter().filter(|k| k.is_empty()).count();
+            let mut groups: BTreeMap<Vec<u8>, Vec<usize>> = BTreeMap::new();
+            for i in 0..n {
+                if d.kind[i] == 'w' && !d.kids[i].is_empty() {
+                    let mut es: Vec<u8> = d.kids[i].iter().map(|&c| d.edge[c]).collect();
+                    es.sort();
+                    groups.entry(es).or_default().push(i);
+                }
+            }
+            let groups: Vec<Vec<usize>> = groups.into_values().filter(|g| g.len() >= 2).collect();
+            if n <= 4000 && !groups.is_empty() {
+                run.line(&d.line(), &format!("tree {} {} wf external-shape", n, nleaves));
+                for _ in 0..synthetic_per_tree {
+                    let g = &groups[rng.below(groups.len() as u64) as usize];
+                    let k = 2 + rng.below(3.min(g.len() as u64 - 1)) as usize;
+                    let mut roots: Vec<usize> = vec![];
+                    while roots.len() < k {
+                        let r = g[rng.below(g.len() as u64) as usize];
+                        if !roots.contains(&r) {
+                            roots.push(r);
+                        }
+                    }
+                    roots.sort();
+                    let mut info = Info::from(tree.clone());
+                    for &r in &roots {
+                        info.add(petgraph::graph::NodeIndex::new(r));
+                    }
+                    let p = profile.read().unwrap();
+                    let real = catch(std::panic::AssertUnwindSafe(|| p.regret_vector(&info)))
+                        .map(|m| m.iter().map(|(e, r)| (u8::from(*e), *r)).collect::<BTreeMap<u8, f32>>());
+                    drop(p);
+                    check_set(&mut run, &d, &v, &va, &roots, real, &format!("epoch {epoch} extra tree"), true, true);
+                }
+            }
+        }
+        {
+        // the update step of Blueprint::solve
+        let mut p = profile.write().unwrap();
+        for cf in cfs {
+            let bucket = cf.info().node().bucket().clone();
+            p.add_regret(&bucket, cf.regret());
+            p.add_policy(&bucket, cf.policy());
+        }
+        p.next();
+        }
+    }
+    run.notes.push("f32 rounding of the real sums is compared with tolerance 1e-4·Σ|terms| (both in the oracle and, through the printed quotient regret/Σ|terms|, in the correspondence)".into());
     run.finish();
 }
